@@ -58,6 +58,12 @@ func (w *vWorld) fail(oracle, failure, format string, args ...interface{}) {
 func RunViews(c *core.Ctx, sparse bool) {
 	t := c.Tape
 	w := &vWorld{c: c, e: pickType(t), sparse: sparse}
+	defer func() {
+		// also on the Fail path (a failed run unwinds by panic)
+		if w.tmpdir != "" {
+			os.RemoveAll(w.tmpdir)
+		}
+	}()
 	w.R, w.C = t.Range(0, 5), t.Range(0, 5)
 	if t.Bool(3, 4) {
 		w.R, w.C = t.Range(1, 5), t.Range(1, 5)
@@ -89,9 +95,6 @@ func RunViews(c *core.Ctx, sparse bool) {
 		c.Steps++
 		w.step()
 		w.checkAll("step")
-	}
-	if w.tmpdir != "" {
-		os.RemoveAll(w.tmpdir)
 	}
 	c.Nontriv = w.viewOps >= 3
 	c.Sample = map[string]interface{}{"storage": storageName(sparse), "element_type": w.e.name, "root": fmt.Sprintf("%dx%d", w.R, w.C), "handles": len(w.hs), "ops_on_views": w.viewOps, "ops": nops}
